@@ -61,8 +61,7 @@ func (vc *VC) nameEnv(fr *frame, b *ssa.BasicBlock, st *State, phiOverride map[*
 		if p, ok := fr.env[fv].(PtrVal); ok {
 			func() {
 				defer func() { recover() }()
-				v := vc.loadValue(st, p.Loc, p.Elem)
-				vars[fv.Name()] = TV{vc.specValue(v, p.Elem), p.Elem}
+				vars[fv.Name()] = vc.cellContent(st.heap, p)
 			}()
 		}
 	}
@@ -88,8 +87,7 @@ func (vc *VC) nameEnv(fr *frame, b *ssa.BasicBlock, st *State, phiOverride map[*
 			}
 			func() {
 				defer func() { recover() }()
-				v := vc.loadValue(st, p.Loc, p.Elem)
-				vars[d.name] = TV{vc.specValue(v, p.Elem), p.Elem}
+				vars[d.name] = vc.cellContent(st.heap, p)
 			}()
 			continue
 		}
